@@ -422,6 +422,10 @@ func (x g) scFile() string {
 					cell = x.fnApp(2, func(d int) string { return x.constant(d) })
 				case k == 16:
 					cell = x.pick([]string{"X", "_", "p(1)", "fn:foo(1)", "fn:list:get([], 5)", "fn:div(1, 0)", "fn:time:now()", "fn:collect(1)", "fn:group_by()"})
+				case k == 18:
+					// a function applied to no argument (or one, or two) whatever its arity is
+					f := builtinFuns[x.n(0, len(builtinFuns)-1)]
+					cell = f.name + "(" + x.list(0, 0, x.n(0, 2), func(int) string { return x.constant(0) }) + ")"
 				case k == 17:
 					// a quoted cell whose escape sequence is cut short or out of range while the closing quote is in place
 					cell = x.pick([]string{`"`, `b"`, "'"}) + x.pick([]string{"", "snow ", "a"}) +
